@@ -203,6 +203,7 @@ func clsFixed() []errExpr {
 	add(ve, fmt.Sprintf("va0 %s - %s", hx("Bucket"), hx("bucket name is required")), "validation0")
 	ve2 := leader.NewValidationError("TTL", nil, "")
 	add(ve2, fmt.Sprintf("va0 %s nil -", hx("TTL")), "validation0")
+	add(fmt.Errorf("new election: %w", ve), fmt.Sprintf("wrap %s - va0 %s - %s", hx("new election: "), hx("Bucket"), hx("bucket name is required")), "validation0")
 	el := leader.NewElectionError("ACQ", "", "", nil)
 	add(el, fmt.Sprintf("el0 %s - -", hx("ACQ")), "election0")
 	tv := &leader.TokenValidationError{Reason: "no token"}
@@ -290,6 +291,11 @@ func runCls(rep *Report, rng *rand.Rand, n int) error {
 			case "nats-permission", "nats-bucket-not-found":
 				if !p {
 					rep.violation(Finding{Property: "C15", Clause: "nats-permission-bucket-permanent", Input: in, Impl: impl})
+				}
+			case "validation0":
+				// the library's own configuration errors (what NewElection returns for an invalid configuration)
+				if !p {
+					rep.violation(Finding{Property: "C15", Clause: "configuration-error-permanent", Input: in, Impl: impl})
 				}
 			case "nats-transient":
 				if !t {
